@@ -554,6 +554,15 @@ func (v *PolicyVerifier) VerifyRelativeForRef(ctx context.Context, firstEntry, l
 						slog.Debug("Setting current policy...")
 					}
 
+					// The new policy's root of trust has been verified against
+					// the current policy; its rule files must also be signed as
+					// its own root and delegations require before it takes
+					// effect for subsequent entries.
+					slog.Debug("Verifying new policy's internal consistency...")
+					if err := newPolicy.Verify(ctx); err != nil {
+						return fmt.Errorf("policy state at entry '%s' has invalidly signed metadata: %w", entry.GetID().String(), err)
+					}
+
 					currentPolicy = newPolicy
 
 					if v.persistentCacheEnabled {
